@@ -38,8 +38,8 @@ func (deadRT) CallWithContext(ctx context.Context, addr, sm string, args, reply 
 	return rpc.ErrDial
 }
 func (deadRT) NewStream(addr, key string) (rpc.Stream, error) { return nil, rpc.ErrDial }
-func (deadRT) Ping(addr string) error                          { return rpc.ErrDial }
-func (deadRT) Close() error                                    { return nil }
+func (deadRT) Ping(addr string) error                         { return rpc.ErrDial }
+func (deadRT) Close() error                                   { return nil }
 
 func spin(d time.Duration) {
 	for t0 := time.Now(); time.Since(t0) < d; {
@@ -201,4 +201,189 @@ func lbFallbackScenario(e *Env) []string {
 		e.count("fallback", fmt.Sprintf("fb-%s-%d-%d", schedCoq[r.sched], len(all), ncall))
 	}
 	return cases
+}
+
+// A wake-up racing with DialTimeout, then a caller that must wait.  Callers wait for a live target;
+// the probe that finds the target live completes at about the moment their DialTimeout expires, so
+// some of them are woken after their timer has fired.  Each of them returns nil (routed) or
+// ErrTimeout — either is right.  What must not happen is that the raced wake-up leaks into a LATER
+// wait: afterwards the target list is reset, nothing is live, and every new caller must wait its full
+// DialTimeout and report ErrTimeout — not come back at once because a recycled waiter or channel
+// still holds the old wake-up.
+type raceRT struct {
+	mu    sync.Mutex
+	up    bool
+	gate  chan struct{}
+	pings int
+}
+
+func (f *raceRT) state() (bool, chan struct{}) {
+	f.mu.Lock()
+	defer f.mu.Unlock()
+	return f.up, f.gate
+}
+func (f *raceRT) res() error {
+	if up, _ := f.state(); up {
+		return nil
+	}
+	return rpc.ErrDial
+}
+func (f *raceRT) RoundTrip(addr string, call *rpc.Call) *rpc.Call {
+	call.Error = f.res()
+	if call.Done == nil {
+		call.Done = make(chan *rpc.Call, 1)
+	}
+	call.Done <- call
+	return call
+}
+func (f *raceRT) Go(addr, sm string, args, reply interface{}, done chan *rpc.Call) *rpc.Call {
+	if done == nil {
+		done = make(chan *rpc.Call, 1)
+	}
+	c := &rpc.Call{ServiceMethod: sm, Args: args, Reply: reply, Done: done, Error: f.res()}
+	done <- c
+	return c
+}
+func (f *raceRT) Call(addr, sm string, args, reply interface{}) error { return f.res() }
+func (f *raceRT) CallWithContext(ctx context.Context, addr, sm string, args, reply interface{}) error {
+	return f.res()
+}
+func (f *raceRT) NewStream(addr, key string) (rpc.Stream, error) { return nil, f.res() }
+func (f *raceRT) Ping(addr string) error {
+	f.mu.Lock()
+	g := f.gate
+	f.pings++
+	f.mu.Unlock()
+	if g != nil {
+		select {
+		case <-g:
+		case <-time.After(5 * time.Second):
+		}
+	}
+	return f.res()
+}
+func (f *raceRT) Close() error { return nil }
+
+func lbWakeTimeoutRace(e *Env) {
+	clients, rounds := 8, 6
+	if e.thorough() {
+		clients, rounds = 12, 40
+	}
+	const callers = 32
+	const dialTimeout = 160 * time.Millisecond // longer than the detector's tick, so that a probe is blocked at the gate when the timers fire
+	var reported sync.Once
+	var wg sync.WaitGroup
+	offsets := make([][]time.Duration, clients)
+	for i := range offsets {
+		offsets[i] = make([]time.Duration, rounds)
+		for j := range offsets[i] {
+			offsets[i][j] = time.Duration(e.Rng.Intn(900)-200) * time.Microsecond
+		}
+	}
+	var raced, woken, timedOut int64
+	var cmu sync.Mutex
+	for ci := 0; ci < clients; ci++ {
+		wg.Add(1)
+		go func(ci int) {
+			defer wg.Done()
+			f := &raceRT{}
+			c := rpc.NewClient(nil)
+			c.Transport = f
+			c.DialTimeout = dialTimeout
+			defer c.Close()
+			for round := 0; round < rounds; round++ {
+				// ---- phase 1: the target comes up as the waiting callers' timers fire ----
+				gate := make(chan struct{})
+				f.mu.Lock()
+				f.up, f.gate = false, gate
+				f.mu.Unlock()
+				c.Update("t1")
+				errs := make(chan error, callers)
+				start := make(chan struct{})
+				for i := 0; i < callers; i++ {
+					go func() { <-start; var a, b []byte; errs <- c.Call("S.M", &a, &b) }()
+				}
+				t0 := time.Now()
+				close(start)
+				for time.Since(t0) < dialTimeout+offsets[ci][round] {
+					if dialTimeout+offsets[ci][round]-time.Since(t0) > 2*time.Millisecond {
+						time.Sleep(time.Millisecond)
+					}
+				}
+				f.mu.Lock()
+				f.up, f.gate = true, nil
+				f.mu.Unlock()
+				close(gate)
+				nOK, nTO := 0, 0
+				for i := 0; i < callers; i++ {
+					select {
+					case err := <-errs:
+						switch err {
+						case nil:
+							nOK++
+						case rpc.ErrTimeout:
+							nTO++
+						default:
+							reported.Do(func() {
+								e.fail("C18-wake-timeout-race-error-kind", fmt.Sprintf("a caller that waited for a live target while the target came up at its DialTimeout returned %v, want nil or ErrTimeout", err),
+									map[string]interface{}{"scenario": "wake-up racing with DialTimeout", "round": round, "seed": e.Seed})
+							})
+						}
+					case <-time.After(5 * time.Second):
+						reported.Do(func() {
+							e.fail("C18-wake-timeout-race-stranded", "a caller was still waiting 5s after both its DialTimeout and the target coming up", map[string]interface{}{"scenario": "wake-up racing with DialTimeout", "round": round, "seed": e.Seed})
+						})
+					}
+				}
+				cmu.Lock()
+				woken += int64(nOK)
+				timedOut += int64(nTO)
+				if nOK > 0 && nTO > 0 {
+					raced++
+				}
+				cmu.Unlock()
+				// ---- phase 2: nothing is live; every caller must wait DialTimeout and report ErrTimeout ----
+				f.mu.Lock()
+				f.up, f.gate = false, nil
+				f.mu.Unlock()
+				c.Update("t1")
+				type res struct {
+					err error
+					el  time.Duration
+				}
+				out := make(chan res, callers)
+				start2 := make(chan struct{})
+				for i := 0; i < callers; i++ {
+					go func() {
+						<-start2
+						t := time.Now()
+						var a, b []byte
+						err := c.Call("S.M", &a, &b)
+						out <- res{err, time.Since(t)}
+					}()
+				}
+				close(start2)
+				for i := 0; i < callers; i++ {
+					select {
+					case r := <-out:
+						if r.err != rpc.ErrTimeout || r.el < dialTimeout*3/4 {
+							reported.Do(func() {
+								e.fail("C18-stale-wakeup", fmt.Sprintf("with no live target a caller returned %v after %v (DialTimeout %v, want ErrTimeout at the timeout): a wake-up that raced with an earlier caller's timeout was delivered to it", r.err, r.el.Round(time.Microsecond), dialTimeout),
+									map[string]interface{}{"scenario": "wake-up racing with DialTimeout, then callers with no live target", "round": round, "seed": e.Seed})
+							})
+						}
+					case <-time.After(5 * time.Second):
+						reported.Do(func() {
+							e.fail("C18-waits-longer-than-dialtimeout", "a caller with no live target was still waiting 5s after its DialTimeout", map[string]interface{}{"scenario": "wake-up racing with DialTimeout, then callers with no live target", "round": round, "seed": e.Seed})
+						})
+					}
+				}
+				e.count("wake-timeout-race", fmt.Sprintf("wtr-%d-%d", ci, round))
+			}
+		}(ci)
+	}
+	wg.Wait()
+	e.mu.Lock()
+	e.Res.Extra["wake_timeout_race"] = map[string]int64{"rounds": int64(clients * rounds), "rounds_with_both_outcomes": raced, "callers_woken": woken, "callers_timed_out": timedOut}
+	e.mu.Unlock()
 }
